@@ -161,7 +161,7 @@ func (t tok) src() string {
 	}
 }
 
-var exLits = []string{"/", "/a", "/ab", "/abc", "/a/", "/a-", "-", ".", "-a", ".a", "/A"}
+var exLits = []string{"/", "/a", "/ab", "/abc", "/a/", "/a-", "-", ".", "-a", ".a", "/A", "-a/"}
 
 func enumPatterns(maxTok int, emit func([]tok)) {
 	var rec func(cur []tok)
@@ -205,9 +205,9 @@ func swapCase(s string) string {
 func pool(kind byte) []string {
 	switch kind {
 	case ':':
-		return []string{"x", "xy", "X"}
+		return []string{"x", "xy", "X", "-ab"} // "-ab": a look-alike of the literals "-a" / "-a/" (their text followed by another character)
 	case '?':
-		return []string{"", "x", "xy", "X"}
+		return []string{"", "x", "xy", "X", "-ab"}
 	case '*':
 		return []string{"", "x", "x/y", "xy", "/"}
 	default:
@@ -221,7 +221,7 @@ func pool(kind byte) []string {
 // slashless reports the shape of (repaired) finding C03-d: behind a greedy parameter, the slash-less spelling of a literal
 // whose trailing slash the pattern makes optional occurs additionally in the path, but not as that spelling (it is
 // followed by something other than a slash: "/ab" for the literal "/a/"). The statement admits such a path.
-func admissible(toks []tok, vals []string, cs bool) (path string, ok bool, slashless bool) {
+func admissible(toks []tok, vals []string, cs, strict bool) (path string, ok bool, slashless bool) {
 	var pb, skel strings.Builder
 	vi := 0
 	for _, t := range toks {
@@ -258,6 +258,11 @@ func admissible(toks []tok, vals []string, cs bool) (path string, ok bool, slash
 				// spelling of the literal "/a/")
 				T := strings.TrimRight(L, "/")
 				if T != "" && countBounded(fp, T) != countBounded(fs, T) {
+					return path, false, false
+				}
+				// without StrictRouting a pattern that ends in a slash IS the pattern without it ("/:p-a/" is "/:p-a"):
+				// there the literal is the slash-less text itself, and any further occurrence of it is an additional one
+				if T != "" && !strict && j+2 == len(toks) && countOverlap(strings.TrimRight(fp, "/"), T) != countOverlap(strings.TrimRight(fs, "/"), T) {
 					return path, false, false
 				}
 				if T != "" && (t.Kind == '*' || t.Kind == '+') && countOverlap(fp, T) != countOverlap(fs, T) {
@@ -353,7 +358,7 @@ func casesFor(toks []tok, cs, strict, unesc bool, emit func(Case)) {
 			}
 			return
 		}
-		path, ok, slashless := admissible(toks, vals, cs)
+		path, ok, slashless := admissible(toks, vals, cs, strict)
 		if !ok {
 			return
 		}
@@ -551,7 +556,7 @@ func genRandom(t *rapid.T) Case {
 		c.Path = wireEsc(rapid.SampledFrom(append([]string{"/foo", "/*", "/:", "/+", "/x/y/z", "/\\*", "/("}, noise...)).Draw(t, "noise"))
 		return c
 	}
-	p, ok, slashless := admissible(toks, vals, c.CS)
+	p, ok, slashless := admissible(toks, vals, c.CS, c.Strict)
 	c.Slashless = slashless
 	if !ok || strings.ContainsAny(p, "?#") {
 		c.Expect = "skip"
